@@ -11,6 +11,7 @@ import TT.Driver.C12
 import TT.Driver.C13
 import TT.Driver.C15
 import TT.Driver.C16
+import TT.Driver.C17
 import TT.Driver.C18
 import TT.Driver.C19
 import TT.Driver.C20
@@ -35,6 +36,7 @@ def answer (line : String) : String :=
   | "c13" :: rest => c13 rest
   | "c15" :: rest => c15 rest
   | "c16" :: rest => c16 rest
+  | "c17" :: rest => c17 rest
   | "c18" :: rest => c18 rest
   | "c19" :: rest => c19 rest
   | "c20" :: rest => c20 rest
